@@ -162,7 +162,8 @@ def c06(prop, tier):
                'sequence with >=2 writers and >=1 merge')
     ck.assumptions = ['block exchange, pubsub and direct channel are simulated (harness/sim); keys and values are concretised from VERIF_SEED']
     small = cfg_small('kv', ['a', 'b'] if tier == 'quick' else ['a', 'b', 'c'], 3, 1)
-    run_core(ck, prop, 'kv', tier, small=small, **sizes(tier))
+    res = run_core(ck, prop, 'kv', tier, small=small, extra={'load_sync': True}, **sizes(tier))
+    ck.extra['load_then_sync'] = res.get('stats', {}).get('load_then_sync', 0)
     return ck.finish()
 
 
@@ -177,7 +178,8 @@ def c01(prop, tier):
     sz['n_random'] = max(4, sz['n_random'] // 2)
     for stype in ['kv', 'log', 'doc']:
         small = cfg_small(stype, ['a', 'b'], 3 if stype != 'doc' else 2, 1) if (tier == 'thorough' or stype == 'kv') else None
-        run_core(ck, prop, stype, tier, final_sync=True, small=small, **sz)
+        res = run_core(ck, prop, stype, tier, final_sync=True, small=small, extra={'load_sync': True}, **sz)
+        ck.extra['load_then_sync'] = ck.extra.get('load_then_sync', 0) + res.get('stats', {}).get('load_then_sync', 0)
     return ck.finish()
 
 
